@@ -15,11 +15,10 @@ PROP = Property(
                   "gen/regen.py constants (status codes, option bits, INET6_ADDRSTRLEN) compiled against the working tree",
                   "harness/config_drv.c (hermetic files/env via --wrap=fopen,gethostname,ares_os_if_*; allocation counting), ocaml/config_drv.ml, gen/cfggen.py",
                   "clang 14 ASan/UBSan/LSan",
-                  "grammar of junk lines: coq/Config/Spec.v (junk_class_resolv, junk_db_line, junk_localdomain, junk_res_options)"],
+                  "grammar of junk lines: coq/Config/Spec.v (junk_class_resolv, junk_db_line, junk_localdomain, junk_res_options), coq/Config/HostsSpec.v (junk_hosts_class)"],
     assumptions=["parsers are hand-modelled (coq/Config/Lines.v, Inet.v); the tie to the C code is the correspondence run",
                  "address parsing is a parameter of the theorems (netfns); the extracted model instantiates it with coq/Config/Inet.v, compared byte for byte with ares_inet_pton/ntop on every generated address",
                  "dns:// URIs are modelled for scheme://host[:port][?tcpport=N] only; other URIs are classed unmodelled-uri (robustness only)",
-                 "hosts file: robustness and metamorphic oracle only, no model",
                  "memory allocation is assumed to succeed (ENOMEM paths not modelled)"],
     generated_fns=["src/lib/ares_update_servers.c:ares_sconfig_get_port", "src/lib/ares_update_servers.c:ares_server_use_uri"],
     rule="generated system configurations (files, environment) with junk lines of one grammar class inserted; non-trivial = every class except trivial-*; distinct by case text",
